@@ -196,6 +196,8 @@ func runC17(c *Ctx) {
 	run := sc.Run
 	c17History(c, run)
 	c17Output(c, run)
+	eng, _ := c01Engine(c)
+	c01Print(c, eng, "O-2")
 	c17Colour(c, run)
 }
 
